@@ -235,6 +235,8 @@ def template_run(verif_seed, index, stratum="template"):
             if spec["sg"][0] in sources.RGROUPS:
                 break
         spec["via"] = via
+        if via != "cif":
+            spec["quirks"] = None
     A = gen_args(rng, is_large(spec))
     ref_mode = ref_mode_for(rng)
     plan = []
@@ -255,6 +257,69 @@ def template_run(verif_seed, index, stratum="template"):
             rest = [{"h": 0, "op": m} for m in tail] + [{"h": 0, "op": q2}]
             rest += audit_steps(1, rng.sample(FAST_QUERIES, 4 if is_large(spec) else 6))
             state["rest"] = iter(rest)
+        return next(state["rest"], None)
+
+    return _drive(spec, A, stratum, index, producer, ref_mode)
+
+
+# ------------------------------------------- three-object fork patterns
+FORK3_FIRST = [None, "uc_atoms", "uc_mols", "sym_mols"]
+FORK3_KINDS = [("deepcopy", "deepcopy"), ("deepcopy", "pickle"), ("pickle", "deepcopy"), ("deepcopy", "reload")]
+FORK3_TOPOLOGY = ["star", "chain"]  # both copies of h0 / copy of a copy
+FORK3_ORDER = [(0, 1), (1, 0), (0, 2), (2, 0), (1, 2), (2, 1)]  # which two handles are switched, in order
+FORK3_SOURCES = [
+    {
+        "kind": "synthetic", "content": "co", "sg": [161, "H"],
+        "cell": [11.5, 11.5, 9.2, 90.0, 90.0, 120.0],
+        "elements": ["O", "H", "H", "C", "O"],
+        "frac": [[0.12, 0.27, 0.31], [0.2, 0.3, 0.33], [0.08, 0.33, 0.36], [0.45, 0.1, 0.7], [0.53, 0.13, 0.75]],
+        "occupation": None, "via": "cif",
+    },
+    {
+        "kind": "synthetic", "content": "co", "sg": [148, "R"],
+        "cell": [8.5, 8.5, 8.5, 78.0, 78.0, 78.0],
+        "elements": ["C", "O", "O", "H", "H", "O"],
+        "frac": [[0.21, 0.33, 0.47], [0.30, 0.40, 0.55], [0.62, 0.71, 0.15],
+                 [0.70, 0.76, 0.21], [0.55, 0.78, 0.17], [0.12, 0.26, 0.39]],
+        "occupation": None, "via": None,
+    },
+]  # fmt: skip
+N_FORK3 = len(FORK3_SOURCES) * len(FORK3_FIRST) * len(FORK3_KINDS) * len(FORK3_TOPOLOGY) * len(FORK3_ORDER)
+
+
+def fork3_of(index):
+    i = index % N_FORK3
+    i, o = divmod(i, len(FORK3_ORDER))
+    i, t = divmod(i, len(FORK3_TOPOLOGY))
+    i, k = divmod(i, len(FORK3_KINDS))
+    i, f = divmod(i, len(FORK3_FIRST))
+    return FORK3_SOURCES[i % len(FORK3_SOURCES)], FORK3_FIRST[f], FORK3_KINDS[k], FORK3_TOPOLOGY[t], FORK3_ORDER[o]
+
+
+def fork3_run(verif_seed, index, stratum="fork3"):
+    """Three crystal objects (an original and two copies, or a copy of a copy):
+    two of them are switched one after the other, each followed by a query on
+    it, then every object is audited. Any two objects alone may behave
+    correctly while the third one is served someone else's data."""
+    rng = random.Random(run_seed(verif_seed, stratum, index))
+    spec, first, (k1, k2), topology, (a, b) = fork3_of(index)
+    A = gen_args(rng)
+    ref_mode = ref_mode_for(rng)
+    q = rng.choice(["uc_atoms", "uc_mols", "menv", "density", "air", "sym_mols"])
+    state = {"rest": None}
+
+    def producer(sim, fb):
+        if state["rest"] is None:
+            choice = sim.world[0].space_group.choice
+            other = "toR" if choice == "H" else "toH"
+            steps = []
+            if first:
+                steps.append({"h": 0, "op": first})
+            steps.append({"h": 0, "op": k1})
+            steps.append({"h": 0 if topology == "star" else 1, "op": k2})
+            steps += [{"h": a, "op": other}, {"h": a, "op": q}, {"h": b, "op": other}, {"h": b, "op": q}]
+            steps += audit_steps(3, [q] + rng.sample(FAST_QUERIES, 3))
+            state["rest"] = iter(steps)
         return next(state["rest"], None)
 
     return _drive(spec, A, stratum, index, producer, ref_mode)
